@@ -249,6 +249,19 @@ type decoder struct {
 	rd io.Reader
 }
 
+// checkLen rejects a length or count field announcing more data than the
+// input still holds: n elements of at least elemSize bytes each. Without this
+// a few bytes of input could make the decoder allocate gigabytes. It can only
+// be checked when the reader knows its remaining length (bytes.Reader does).
+func (d *decoder) checkLen(n uint64, elemSize uint64) error {
+	if lr, ok := d.rd.(interface{ Len() int }); ok {
+		if n*elemSize > uint64(lr.Len()) {
+			return io.ErrUnexpectedEOF
+		}
+	}
+	return nil
+}
+
 // read9p extracts values from rd and unmarshals them to the targets of vs.
 func (d *decoder) decode(vs ...interface{}) error {
 	for _, v := range vs {
@@ -264,6 +277,10 @@ func (d *decoder) decode(vs ...interface{}) error {
 				return err
 			}
 
+			if err := d.checkLen(uint64(ll), 1); err != nil {
+				return err
+			}
+
 			if ll > 0 {
 				*v = make([]byte, int(ll))
 			}
@@ -276,6 +293,10 @@ func (d *decoder) decode(vs ...interface{}) error {
 
 			// implement string[s] encoding
 			if err := d.decode(&ll); err != nil {
+				return err
+			}
+
+			if err := d.checkLen(uint64(ll), 1); err != nil {
 				return err
 			}
 
@@ -295,6 +316,11 @@ func (d *decoder) decode(vs ...interface{}) error {
 			var ll uint16
 
 			if err := d.decode(&ll); err != nil {
+				return err
+			}
+
+			// each string takes at least its 2-byte length
+			if err := d.checkLen(uint64(ll), 2); err != nil {
 				return err
 			}
 
@@ -325,6 +351,11 @@ func (d *decoder) decode(vs ...interface{}) error {
 				return err
 			}
 
+			// each qid takes 13 bytes
+			if err := d.checkLen(uint64(ll), 13); err != nil {
+				return err
+			}
+
 			elements := make([]interface{}, int(ll))
 			*v = make([]Qid, int(ll))
 			for i := range elements {
@@ -338,6 +369,10 @@ func (d *decoder) decode(vs ...interface{}) error {
 			var ll uint16
 
 			if err := d.decode(&ll); err != nil {
+				return err
+			}
+
+			if err := d.checkLen(uint64(ll), 1); err != nil {
 				return err
 			}
 
